@@ -44,7 +44,6 @@ Lemma gen_seg_chunk h x line nodes info st' writes :
 Proof.
   intros CP H. unfold html_gen_seg in H. cbv zeta in H.
   apply w_bind_inv in H as (s1 & o1 & m & o2 & H1 & H & ->). apply w_lift_inv in H1 as (-> & -> & Em).
-  apply w_bind_inv in H as (s1 & o1 & t_seg & o3 & H1 & H & ->). apply w_lift_inv in H1 as (-> & -> & Et).
   apply w_bind_inv in H as (s1 & o1 & [] & o4 & H1 & H & ->).
   assert (P1 := wspec_iter (write_pre_errors h (sid (xs_s x)))
                   (fun r => concat (map plain_seg_err (filter is3 (node_errors h (sid (xs_s x)) r)))) nodes
@@ -77,7 +76,7 @@ Proof.
   apply (chunk_app _ []); [chunk_const [l "<span class=""seg"">"]|].
   apply chunk_app; [apply chunk_free, fmt_Zi_free|].
   apply chunk_app; [chunk_const (@nil str)|].
-  apply chunk_app; [apply (seg_line_chunk x m t_seg body Et Eb)|].
+  apply chunk_app; [apply (seg_line_chunk x m body Eb)|].
   apply (chunk_app _ [] _ (NL ++ plain_post h (sid (xs_s x)) nodes)); [chunk_const [l "</span>"; l "<br />"]|].
   apply (chunk_app NLs NL (concat o15) (plain_post h (sid (xs_s x)) nodes)); [apply chunk_NL | exact C3].
 Qed.
